@@ -10,7 +10,8 @@ THEOREMS = ['C17_derives_rename', 'C17_trees_rename', 'C17_trees_are_derivations
             'C17_remove_unused_is_reachability', 'C17_do_import', 'C17_load_under_chain_is_renaming', 'C17_chain_ok',
             'C17_import_is_inlining', 'C17_import_plain_module', 'C17_no_capture',
             'C17_compile_rename', 'C17_contributed_language', 'C17_contributed_trees', 'C17_imported_language',
-            'C17_numbering_exists',
+            'C17_numbering_exists', 'C17_keep_all_tokens_reaches_imports', 'C17_keep_all_tokens_local',
+            'C17_unpack_import_names', 'C17_unpack_import_single',
             'C17_import_clash_is_error', 'C17_extend_is_alternative', 'C17_extend_keeps_alternatives',
             'C17_extend_term_in_place', 'C17_override_term_fresh_object', 'C17_extend_terminal_is_seen',
             'C17_override_terminal_refuted',
@@ -26,7 +27,11 @@ RULE = ('random programs of 1-3 module files (plain / renamed / multi / nested %
         'statement trees lark parsed from the same files, every ApplyTemplates.template_usage call against '
         'template_usage_step, _get_mangle against mangle; (b) parse of the modular grammar against the hand-inlined '
         'single grammar (written with fresh names) on derived sentences, mutated sentences and random strings under '
-        'lalr and earley: same acceptance, equal trees after the label map. non-trivial = distinct program with >= 1 '
+        'lalr and earley: same acceptance, equal trees after the label map; every program runs under a random choice of the '
+        'global options keep_all_tokens x maybe_placeholders (given to both grammars; keep_all_tokens also to the builder '
+        'in (a)), and a fixed corpus (imported rules with anonymous punctuation, _TERMINALS, [..] items at import depth 1 '
+        'and 2) under the full 2x2 matrix; (c) _unpack_import against Mod/Unpack.unpack_import on every %import statement '
+        'of the generated files and a fixed list. non-trivial = distinct program with >= 1 '
         'import that contributes >= 2 definitions / distinct (program, input) with an accepted parse')
 TRUSTED_BASE = ['hand model Mod/Modules.v of GrammarBuilder / resolve_term_references / ApplyTemplates (tied by comparing '
                 'final definitions and per-call template instantiation); the string operations of _get_mangle are '
@@ -43,7 +48,7 @@ ASSUMPTIONS = ['the trees of terminal definitions are modelled as shared heap ob
                'names are non-empty; rule/terminal names do not contain "{", "}" or ","']
 ALLOWED_AXIOMS = []
 
-IMPORTS = 'From LV Require Import Mod.Modules Mod.ModulesCheck.'
+IMPORTS = 'From LV Require Import Mod.Modules Mod.ModulesCheck Mod.Unpack Mod.UnpackCheck.'
 
 
 # ----------------------------------------------------------------------------------------------
@@ -1050,10 +1055,12 @@ def run_parse(p, text, labels=None):
         return 'TIMEOUT'
 
 
-def differential(files, main_text, inl_text, labels, texts, parser, d):
-    """-> list of (kind, text, modular result, inlined result); kind in construct / parse"""
-    pm, em = build(main_text, parser, d)
-    pi, ei = build(inl_text, parser) if inl_text is not None else (None, 'SpecError')
+def differential(files, main_text, inl_text, labels, texts, parser, d, opts=None):
+    """-> list of (kind, text, modular result, inlined result); kind in construct / parse.
+    opts: Lark options given to BOTH grammars (keep_all_tokens reaches GrammarBuilder as global_keep_all_tokens)"""
+    opts = opts or {}
+    pm, em = build(main_text, parser, d, **opts)
+    pi, ei = build(inl_text, parser, **opts) if inl_text is not None else (None, 'SpecError')
     if (pm is None) != (pi is None):
         return [('construct', None, em or 'built', ei or 'built')], 0
     if pm is None:
@@ -1190,10 +1197,100 @@ def run_exotic(ctx, e):
     return bad
 
 
-def witness(files, main_text, inl_text, labels, parser, text):
+def witness(files, main_text, inl_text, labels, parser, text, opts=None):
     return {'files': {'.'.join(p): t for p, t in files.items()}, 'main': main_text, 'inlined': inl_text,
-            'labels': labels, 'parser': parser, 'text': text}
+            'labels': labels, 'parser': parser, 'text': text, 'options': opts or {}}
 
+
+
+
+# ----------------------------------------------------------------------------------------------
+# _unpack_import against Mod/Unpack.unpack_import
+# ----------------------------------------------------------------------------------------------
+UNPACK_FIXED = ['%import m\n', '%import m.a\n', '%import a.b.c\n', '%import a.b.X -> Y\n', '%import a.b (x, y, x)\n',
+                '%import m (A)\n', '%import .rel.x\n', '%import .x\n', '%import m.a -> a\n', '%import a.b.c.d (p)\n']
+
+
+def unpack_cases(texts):
+    """every %import statement of the given grammar texts -> (coq unpack_case, readable form)"""
+    from lark.load_grammar import _parse_grammar, GrammarBuilder
+    from lark.exceptions import GrammarError
+    from lark.tree import Tree
+    out = []
+    for text in texts:
+        try:
+            tree = _parse_grammar(text + 'start: "x"\n', 'c17.lark')
+        except GrammarError:
+            continue
+        for st in tree.children:
+            if st.data != 'import':
+                continue
+            path_node = st.children[0]
+            arg1 = st.children[1] if len(st.children) > 1 else None
+            children = [str(c) for c in path_node.children]
+            if isinstance(arg1, Tree):
+                arg = '(ANames %s)' % L([S(str(n)) for n in arg1.children])
+            elif arg1 is not None:
+                arg = '(AAlias %s)' % S(str(arg1))
+            else:
+                arg = 'ANone'
+            try:
+                dotted, _base, aliases = GrammarBuilder()._unpack_import(st, 'c17.lark')
+                obs = '(Some (%s, %s))' % (L([S(str(x)) for x in dotted]),
+                                           L(['(%s, %s)' % (S(str(k)), S(str(v))) for k, v in aliases.items()]))
+                shown = (list(map(str, dotted)), {str(k): str(v) for k, v in aliases.items()})
+            except GrammarError:
+                obs, shown = 'None', 'GrammarError'
+            out.append(('((%s, %s, %s) : unpack_case)' % (L([S(c) for c in children]), arg, obs),
+                        {'statement': text.strip() if text in UNPACK_FIXED else '%import ' + '.'.join(children), 'observed': shown}))
+    return out
+
+# ----------------------------------------------------------------------------------------------
+# fixed corpus run under the matrix of global options (seed independent): imported rules with filtered tokens
+# (anonymous punctuation, _TERMINALS) and [..] items, at import depth 1 and 2
+# ----------------------------------------------------------------------------------------------
+GEO = 'point: "(" coord ["," coord] ")"\ncoord: _SIGN? NUM\n_SIGN: "-"\nNUM: "7" | "8"\n'
+SHAPES = '%import geo.point\nseg: "<" point ".." point [tag] ">"\ntag: "#" _T\n_T: "t"\n'
+OPTION_CORPUS = [
+    dict(name='depth1', files={('geo',): GEO},
+         main='start: point+\n%import geo.point\n',
+         inlined=('start: point+\npoint: "(" geo__coord ["," geo__coord] ")"\ngeo__coord: _GEO__SIGN? GEO__NUM\n'
+                  '_GEO__SIGN: "-"\nGEO__NUM: "7" | "8"\n'),
+         labels={'GEO__NUM': 'geo__NUM', '_GEO__SIGN': '_geo__SIGN'},
+         texts=['(7,-8)(8)', '(-7)', '(7,8']),
+    dict(name='depth2', files={('geo',): GEO, ('shapes',): SHAPES},
+         main='start: seg\n%import shapes.seg\n',
+         inlined=('start: seg\nseg: "<" shapes__point ".." shapes__point [shapes__tag] ">"\n'
+                  'shapes__point: "(" shapes__geo__coord ["," shapes__geo__coord] ")"\n'
+                  'shapes__geo__coord: _SHAPES__GEO__SIGN? SHAPES__GEO__NUM\n_SHAPES__GEO__SIGN: "-"\n'
+                  'SHAPES__GEO__NUM: "7" | "8"\nshapes__tag: "#" _SHAPES__T\n_SHAPES__T: "t"\n'),
+         labels={'SHAPES__GEO__NUM': 'shapes__geo__NUM', '_SHAPES__GEO__SIGN': '_shapes__geo__SIGN',
+                 '_SHAPES__T': '_shapes__T'},
+         texts=['<(7,-8)..(8)#t>', '<(7)..(-8,8)>', '<(7)..>']),
+]
+OPTION_MATRIX = [{'keep_all_tokens': k, 'maybe_placeholders': m} for k in (False, True) for m in (False, True)]
+
+
+def run_option_corpus(ctx, load_cases, load_meta):
+    for e in OPTION_CORPUS:
+        d = os.path.join(ctx.scratch, 'opt_' + e['name'])
+        write_program(e['files'], d)
+        for keep in (False, True):
+            term, obs, msg = load_case_term(e['files'], e['main'], d, keep)
+            load_cases.append(term)
+            load_meta.append((e['files'], e['main'], e['inlined'], e['labels'],
+                              {'shape': 'options-corpus:' + e['name'], 'opts': {'keep_all_tokens': keep}}))
+            ctx.count('load', key=(e['name'], keep), nontrivial=True, shape='options-corpus', outcome='ok' if obs else 'error')
+        for opts in OPTION_MATRIX:
+            for parser in ('lalr', 'earley'):
+                bad, acc = differential(e['files'], e['main'], e['inlined'], e['labels'], e['texts'], parser, d, opts)
+                for t in e['texts']:
+                    ctx.count('options-corpus', key=(e['name'], t, parser, repr(sorted(opts.items()))), nontrivial=True)
+                for kind, t, a, b in bad[:2]:
+                    ctx.violation('inlining-differential:' + kind,
+                                  witness(e['files'], e['main'], e['inlined'], e['labels'], parser, t or '', opts), True,
+                                  'modular grammar gives %s, the hand-inlined grammar gives %s (parser=%s, options=%s, text=%r)'
+                                  % (str(a)[:200], str(b)[:200], parser, opts, t))
 
 # ----------------------------------------------------------------------------------------------
 def correspond(ctx):
@@ -1218,6 +1315,7 @@ def correspond(ctx):
 
     # (1) programs --------------------------------------------------------------------------------
     load_cases, load_meta = [], []
+    import_texts = list(UNPACK_FIXED)
     tmpl_cases, tmpl_meta = [], []
     found_by_diff = 0
     for i in range(nprog):
@@ -1227,6 +1325,12 @@ def correspond(ctx):
         main_text = p_module(prog[('main',)])
         d = os.path.join(ctx.scratch, 'p%d' % i)
         write_program(files, d)
+        if i < 60:
+            import_texts += [main_text] + list(files.values())
+        # global options: keep_all_tokens is handed to GrammarBuilder (and must reach every imported module),
+        # maybe_placeholders decides what [..] items of (imported) rules leave in the tree
+        opts = {'keep_all_tokens': rng.random() < 0.4, 'maybe_placeholders': rng.random() < 0.5}
+        info['opts'] = opts
         try:
             defs, ignore, inl_text, labels = inline_program(prog, by_hand_templates=rng.random() < 0.6)
             spec_err = None
@@ -1234,7 +1338,7 @@ def correspond(ctx):
             defs, ignore, inl_text, labels, spec_err = None, None, None, None, str(e)
         # (a) builder's definitions against the model
         try:
-            term, obs, msg = load_case_term(files, main_text, d)
+            term, obs, msg = load_case_term(files, main_text, d, opts['keep_all_tokens'])
         except FrontEnd:
             term = None
         except Exception as ex:      # lark's own front end rejected a generated file: generator problem, skip
@@ -1254,7 +1358,7 @@ def correspond(ctx):
                                      'definitions': list(map(str, obs[2]._definitions))}})
             # the spec and the builder must agree on error / no error
             if (obs is None) != (spec_err is not None):
-                ctx.violation('import-error-agreement', witness(files, main_text, inl_text, labels, 'earley', ''), True,
+                ctx.violation('import-error-agreement', witness(files, main_text, inl_text, labels, 'earley', '', opts), True,
                               'builder %s but writing the definitions out by hand %s' % (
                                   'raised GrammarError (%s)' % msg if obs is None else 'succeeded',
                                   'is an error (%s)' % spec_err if spec_err else 'is a valid grammar'))
@@ -1288,25 +1392,37 @@ def correspond(ctx):
             texts = gen_inputs(defs, ignore, rng, 3, 2, 1)
             for parser in ('lalr', 'earley'):
                 try:
-                    bad, acc = differential(files, main_text, inl_text, labels, texts, parser, d)
+                    bad, acc = differential(files, main_text, inl_text, labels, texts, parser, d, opts)
                 except Exception as ex:
-                    ctx.violation('differential-raised', witness(files, main_text, inl_text, labels, parser, ''), True,
+                    ctx.violation('differential-raised', witness(files, main_text, inl_text, labels, parser, '', opts), True,
                                   'unexpected exception %r' % (ex,))
                     found_by_diff += 1
                     continue
                 for t in texts:
-                    ctx.count('parse', key=(main_text, t, parser), nontrivial=True, parser=parser)
+                    ctx.count('parse', key=(main_text, t, parser, repr(sorted(opts.items()))), nontrivial=True, parser=parser,
+                              keep_all_tokens=opts['keep_all_tokens'], maybe_placeholders=opts['maybe_placeholders'])
                 ctx.histo.setdefault('accepted', {})
                 ctx.histo['accepted'][parser] = ctx.histo['accepted'].get(parser, 0) + acc
                 for kind, t, a, b in bad[:2]:
                     found_by_diff += 1
-                    ctx.violation('inlining-differential:' + kind, witness(files, main_text, inl_text, labels, parser, t or ''), True,
-                                  'modular grammar gives %s, the hand-inlined grammar gives %s (parser=%s, text=%r)'
-                                  % (str(a)[:160], str(b)[:160], parser, t))
+                    ctx.violation('inlining-differential:' + kind, witness(files, main_text, inl_text, labels, parser, t or '', opts), True,
+                                  'modular grammar gives %s, the hand-inlined grammar gives %s (parser=%s, options=%s, text=%r)'
+                                  % (str(a)[:160], str(b)[:160], parser, opts, t))
         for f in info['features']:
             ctx.histo.setdefault('feature', {})
             ctx.histo['feature'][f] = ctx.histo['feature'].get(f, 0) + 1
 
+    run_option_corpus(ctx, load_cases, load_meta)
+    uc = unpack_cases(import_texts)
+    for c, m in uc:
+        ctx.count('unpack-import', key=c, nontrivial=True)
+    bad, errs = ctx.coq_bad_indices('c17unpack', IMPORTS, 'check_unpack', [c for c, _ in uc], chunk=2000, extra_defs=CUR.defs())
+    for e in errs:
+        ctx.violation('correspondence:coq-eval', {'error': e}, False, e[:300])
+    for i in bad[:3]:
+        ctx.violation('correspondence:Mod/Unpack.unpack_import vs GrammarBuilder._unpack_import',
+                      dict(uc[i][1], no_longer_checks='_unpack_import agreement'), False,
+                      'model and _unpack_import differ: %s' % (uc[i][1],))
     bad, errs = ctx.coq_bad_indices('c17load', IMPORTS, 'check_load', load_cases, chunk=max(8, len(load_cases) // 12 + 1),
                                     extra_defs=CUR.defs())
     for e in errs:
@@ -1314,9 +1430,10 @@ def correspond(ctx):
     for i in bad[:6]:
         files, main_text, inl_text, labels, info = load_meta[i]
         ctx.violation('correspondence:Mod/Modules.load_and_validate vs GrammarBuilder',
-                      dict(witness(files, main_text, inl_text, labels, 'earley', ''),
+                      dict(witness(files, main_text, inl_text, labels, 'earley', '', info.get('opts')),
                            no_longer_checks='final definitions of GrammarBuilder agree with the model'),
-                      False, 'GrammarBuilder._definitions differ from the model on a program of shape %s' % info['shape'])
+                      False, 'GrammarBuilder._definitions differ from the model on a program of shape %s (options %s)'
+                      % (info['shape'], info.get('opts')))
     bad, errs = ctx.coq_bad_indices('c17tmpl', IMPORTS, 'check_template', tmpl_cases,
                                     chunk=max(20, len(tmpl_cases) // 8 + 1), extra_defs=CUR.defs())
     for e in errs:
@@ -1355,10 +1472,10 @@ def replay(ctx, case):
     d = os.path.join(ctx.scratch, 'replay')
     write_program(files, d)
     if case.get('stage') == 'import-error-agreement':
-        obs, msg = observe_builder(w['main'], d)
+        obs, msg = observe_builder(w['main'], d, bool((w.get('options') or {}).get('keep_all_tokens')))
         return (obs is None) != (w['inlined'] is None)
     try:
-        bad, _ = differential(files, w['main'], w['inlined'], w['labels'], [w['text']], w['parser'], d)
+        bad, _ = differential(files, w['main'], w['inlined'], w['labels'], [w['text']], w['parser'], d, w.get('options'))
     except Exception:
         return True
     return bool(bad)
